@@ -73,7 +73,7 @@ class Sub:
         self.poller = getattr(pollers_mod, pname)().register(self.root)
         self.log = []
         self.owners = []
-        for i, ch in enumerate(('p', 'q')[:nsock]):
+        for i, ch in enumerate((('p', 'q') + tuple('r%d' % k for k in range(nsock)))[:nsock]):
             pr = Probe(channel=ch)
             pr.log = self.log
             pr.register(self.root)
@@ -459,6 +459,23 @@ def run(tier, seed, workers):
         st.bounds = {'sockets%d_ops%d' % (nsock, len(ops)): dict(st.bounds)}
         states += st.states
         total.merge(st)
+    # many descriptors at once (one long history, not a search): every registered-and-ready descriptor is reported, each once
+    for n in ((40,) if tier == 'quick' else (40, 150, 400)):
+        model = PollModel(n, FULL_OPS)
+        hist = [('addReader', i) for i in range(n)] + [('addWriter', i) for i in range(0, n, 2)] + [('peer_write', i) for i in range(0, n, 3)]
+        hist += [('removeReader', i) for i in range(0, n, 6)] + [('discard', i) for i in range(1, n, 7)] + [('peer_close', i) for i in range(2, n, 9)]
+        hist += [('peer_write', n - 1), ('addWriter', n - 1)]
+        hist = tuple(hist)
+        w = model.build(hist)
+        sst = core.Stats()
+        try:
+            # every prefix ending in the last 3 operations is judged (check() judges the state after the last operation)
+            model.check(hist, w, sst)
+        finally:
+            model.close(w)
+        sst.counters['many_descriptor_histories'] += 1
+        sst.samples = []
+        total.merge(sst)
     total.states = states
     if not total.counters['states_with_registered_and_ready_descriptor']:
         total.selfcheck_errors.append('vacuity: nothing was ever registered and ready')
